@@ -33,6 +33,11 @@ NON_PATH_ATTRS = {'name', 'suffix', 'stem', 'parts', 'suffixes'}
 
 WRITE_MODES = set('wax+')
 
+# repo functions that hand back (possibly) the very file they were given:
+# FileTracker.real_location is the identity when no scratch dir is used
+PATH_IDENTITY_FUNCS = {
+    'file_tracker.file_tracker:FileTracker.real_location'}
+
 
 class Effect(object):
     __slots__ = ('kind', 'root', 'rel', 'site', 'fi', 'via')
@@ -103,88 +108,64 @@ class PathAnalysis(object):
         self._summary = dict()       # id(fi) -> list[Effect]
         self._ret = dict()           # id(fi) -> set((root, rel))
         self._inprogress = set()
+        self._defmemo = dict()
         self.mode_notes = []
 
     # ------------------------------------------------------------------
     def var_origins(self, fi):
+        """
+        env for the flow-insensitive parts: `self.attr` stores and
+        containers filled by append / item stores.  Plain local names are
+        resolved flow-sensitively through reaching definitions (see
+        _name_origins), so that `tmp_dir = mkdtemp(dir=tmp_dir)` does not
+        conflate the parameter with the fresh directory.
+        """
         key = id(fi)
         if key in self._origins:
             return self._origins[key]
         env = dict()
-        for p in fi.params:
-            env[p] = {(p, 'same')}
         self._origins[key] = env
         changed = True
         guard = 0
-        while changed and guard < 8:
+        while changed and guard < 6:
             guard += 1
             changed = False
             for node in ast.walk(fi.node):
-                targets = []
-                value = None
                 if isinstance(node, ast.Assign):
-                    targets = node.targets
-                    value = node.value
-                elif isinstance(node, ast.AnnAssign) and node.value:
-                    targets = [node.target]
-                    value = node.value
-                elif isinstance(node, (ast.With, ast.AsyncWith)):
-                    for it in node.items:
-                        if it.optional_vars is not None:
-                            o = self.origins(fi, it.context_expr, env)
-                            changed |= self._bind(env, it.optional_vars, o)
-                    continue
-                elif isinstance(node, (ast.For, ast.comprehension)):
-                    o = self.origins(fi, node.iter, env)
-                    # iterating a directory listing yields children;
-                    # iterating a list of paths yields those paths
-                    changed |= self._bind(env, node.target, o)
-                    continue
-                elif isinstance(node, ast.NamedExpr):
-                    targets = [node.target]
-                    value = node.value
-                if value is None:
-                    continue
-                o = self.origins(fi, value, env)
-                for t in targets:
-                    changed |= self._bind(env, t, o)
-                # list building: x.append(path)
-            for node in ast.walk(fi.node):
-                if isinstance(node, ast.Call) and isinstance(
+                    for t in node.targets:
+                        if isinstance(t, ast.Attribute) and isinstance(
+                                t.value, ast.Name) and t.value.id == 'self':
+                            o = self.origins(fi, node.value, env)
+                            changed |= self._bind(env, t, o)
+                        elif isinstance(t, ast.Subscript) and isinstance(
+                                t.value, ast.Name):
+                            o = set(self.origins(fi, node.value, env))
+                            # keys of a dict may be paths as well; they are
+                            # kept apart from the values ('key:' relation)
+                            o |= {(r, 'key:' + rel) for (r, rel) in
+                                  self.origins(fi, t.slice, env)
+                                  if not rel.startswith('key:')}
+                            if o:
+                                nm = '#' + t.value.id
+                                before = len(env.get(nm, ()))
+                                env.setdefault(nm, set()).update(o)
+                                changed |= len(env[nm]) != before
+                elif isinstance(node, ast.Call) and isinstance(
                         node.func, ast.Attribute) and node.func.attr in (
                             'append', 'add', 'extend', 'insert') \
                         and isinstance(node.func.value, ast.Name) \
                         and node.args:
                     o = self.origins(fi, node.args[-1], env)
                     if o:
-                        nm = node.func.value.id
+                        nm = '#' + node.func.value.id
                         before = len(env.get(nm, ()))
                         env.setdefault(nm, set()).update(o)
                         changed |= len(env[nm]) != before
-                # d[k] = path
-                if isinstance(node, ast.Assign):
-                    for t in node.targets:
-                        if isinstance(t, ast.Subscript) and isinstance(
-                                t.value, ast.Name):
-                            o = self.origins(fi, node.value, env)
-                            if o:
-                                nm = t.value.id
-                                before = len(env.get(nm, ()))
-                                env.setdefault(nm, set()).update(o)
-                                changed |= len(env[nm]) != before
         return env
 
     def _bind(self, env, target, o):
         changed = False
-        if isinstance(target, ast.Name):
-            if o:
-                before = len(env.get(target.id, ()))
-                env.setdefault(target.id, set()).update(o)
-                changed = len(env[target.id]) != before
-        elif isinstance(target, (ast.Tuple, ast.List)):
-            for e in target.elts:
-                changed |= self._bind(env, e, o)
-        elif isinstance(target, ast.Attribute) and isinstance(
+        if isinstance(target, ast.Attribute) and isinstance(
                 target.value, ast.Name) and target.value.id == 'self':
             nm = f'self.{target.attr}'
             if o:
@@ -193,6 +174,86 @@ class PathAnalysis(object):
                 changed = len(env[nm]) != before
         return changed
 
+    def _name_origins(self, fi, name_node, env):
+        """origins of a local name at this use, through reaching defs"""
+        from ..core.defuse import rd_of
+        rd = rd_of(fi)
+        key = id(fi)
+        memo = self._defmemo.setdefault(key, dict())
+        defs = rd.reaching_at_expr(name_node)
+        out = set()
+        if not defs:
+            # comprehension variable or global
+            comp = self._comp_binding(name_node)
+            if comp is not None:
+                return self.origins(fi, comp, env)
+            return out
+        for d in defs:
+            out |= self._def_origins(fi, d, env, memo)
+        # containers filled by append / item store
+        out |= env.get('#' + name_node.id, set())
+        return out
+
+    def _comp_binding(self, name_node):
+        n = getattr(name_node, '_parent', None)
+        while n is not None and not isinstance(n, (ast.FunctionDef,
+                                                   ast.AsyncFunctionDef)):
+            if isinstance(n, (ast.ListComp, ast.SetComp, ast.GeneratorExp,
+                              ast.DictComp)):
+                for g in n.generators:
+                    for sub in ast.walk(g.target):
+                        if isinstance(sub, ast.Name) \
+                                and sub.id == name_node.id:
+                            return g.iter
+            n = getattr(n, '_parent', None)
+        return None
+
+    def _def_origins(self, fi, d, env, memo):
+        if d.id in memo:
+            return memo[d.id]
+        memo[d.id] = set()
+        if d.kind == 'param':
+            res = {(d.name, 'same')}
+        elif d.kind == 'for':
+            res = self._iter_origins(fi, d.value, d.path, env)
+        elif d.kind in ('assign', 'walrus', 'with', 'aug'):
+            res = self.origins(fi, d.value, env)
+        else:
+            res = set()
+        memo[d.id] = res
+        return res
+
+    def _iter_origins(self, fi, it, path, env):
+        """origins of the loop variable of `for <target> in it`"""
+        which = 'auto'
+        base = it
+        if isinstance(it, ast.Call) and isinstance(it.func, ast.Attribute) \
+                and not it.args:
+            if it.func.attr == 'items':
+                base = it.func.value
+                first = path[0] if path else None
+                which = 'keys' if first == 0 else (
+                    'values' if first == 1 else 'both')
+            elif it.func.attr == 'keys':
+                base = it.func.value
+                which = 'keys'
+            elif it.func.attr == 'values':
+                base = it.func.value
+                which = 'values'
+        o = self.origins(fi, base, env)
+        keys = {(r, rel[4:]) for (r, rel) in o if rel.startswith('key:')}
+        vals = {(r, rel) for (r, rel) in o if not rel.startswith('key:')}
+        if which == 'keys':
+            return keys
+        if which == 'values':
+            return vals
+        if which == 'both':
+            return keys | vals
+        # plain iteration: a dict yields its keys, a list its elements
+        if keys:
+            return keys
+        return vals
+
     def origins(self, fi, e, env=None):
         """set of (root, rel) the expression may denote"""
         if env is None:
@@ -200,24 +261,33 @@ class PathAnalysis(object):
         if e is None:
             return set()
         if isinstance(e, ast.Name):
-            return set(env.get(e.id, ()))
+            return self._name_origins(fi, e, env)
         if isinstance(e, ast.Constant):
             return set()
         ch = subscript_chain(e)
         if ch is not None:
             base, keys = ch
             out = set()
-            if base in env or base.startswith('self.'):
+            if base.startswith('self.'):
                 srcs = env.get(base)
                 if srcs:
                     for (r, rel) in srcs:
                         out.add((root_str(r, keys), rel))
-                elif base.startswith('self.'):
+                else:
                     out.add((root_str(base, keys), 'same'))
+                return out
+            n = e
+            while isinstance(n, ast.Subscript):
+                n = n.value
+            srcs = self._name_origins(fi, n, env)
+            for (r, rel) in srcs:
+                out.add((root_str(r, keys), rel))
             return out
         if isinstance(e, ast.Subscript):
             # element of a list / dict of paths, or tuple from mkstemp
-            return self.origins(fi, e.value, env)
+            return {(r, rel) for (r, rel) in
+                    self.origins(fi, e.value, env)
+                    if not rel.startswith('key:')}
         if isinstance(e, ast.Attribute):
             if isinstance(e.value, ast.Name) and e.value.id == 'self':
                 got = env.get(f'self.{e.attr}')
@@ -231,7 +301,10 @@ class PathAnalysis(object):
                         self.origins(fi, e.value, env) if rel == 'same'}
             return set()
         if isinstance(e, ast.BinOp) and isinstance(e.op, ast.Div):
-            return {(r, 'under' if rel != 'parent' else 'sibling')
+            return {(r, _child(rel))
+                    for (r, rel) in self.origins(fi, e.left, env)}
+        if isinstance(e, ast.BinOp) and isinstance(e.op, ast.Add):
+            return {(r, 'sibling' if rel == 'same' else rel)
                     for (r, rel) in self.origins(fi, e.left, env)}
         if isinstance(e, ast.IfExp):
             return self.origins(fi, e.body, env) | self.origins(
@@ -256,11 +329,11 @@ class PathAnalysis(object):
         if name in IDENTITY_CALLS and call.args:
             return self.origins(fi, call.args[0], env)
         if name == 'os.path.join' and call.args:
-            return {(r, 'under') for (r, rel) in
+            return {(r, _child(rel)) for (r, rel) in
                     self.origins(fi, call.args[0], env)}
         if name in ('tempfile.mkdtemp', 'tempfile.mkstemp'):
-            d = _kwarg(call, 'dir', 2 if name.endswith('mkdtemp') else 2)
-            return {(r, 'under') for (r, rel) in self.origins(fi, d, env)}
+            d = _kwarg(call, 'dir', 2)
+            return {(r, 'fresh') for (r, rel) in self.origins(fi, d, env)}
         if name in ('sorted', 'list', 'tuple', 'set', 'reversed') \
                 and call.args:
             return self.origins(fi, call.args[0], env)
@@ -268,13 +341,19 @@ class PathAnalysis(object):
             if f.attr in IDENTITY_METHODS:
                 return self.origins(fi, f.value, env)
             if f.attr in CHILD_METHODS:
-                return {(r, 'under') for (r, rel) in
+                return {(r, _child(rel)) for (r, rel) in
                         self.origins(fi, f.value, env)}
             if f.attr in ('iterdir', 'glob', 'rglob'):
-                return {(r, 'under') for (r, rel) in
+                return {(r, _child(rel)) for (r, rel) in
                         self.origins(fi, f.value, env)}
         if isinstance(t, ClassInfo):
             return set()
+        if isinstance(t, FunctionInfo) and t.qual in PATH_IDENTITY_FUNCS:
+            mapping, _ = bind_args(t, call)
+            out = set()
+            for a in mapping.values():
+                out |= self.origins(fi, a, env)
+            return out
         if isinstance(t, FunctionInfo):
             ret = self.return_origins(t)
             if not ret:
@@ -302,7 +381,7 @@ class PathAnalysis(object):
         # origins stored on an object are not tracked across functions,
         # except for `self`
         if isinstance(recv, ast.Name) and recv.id == 'self':
-            return env.get(attr, set())
+            return env.get(attr) or {(attr, 'same')}
         return set()
 
     def return_origins(self, fi):
@@ -338,6 +417,8 @@ class PathAnalysis(object):
             else:
                 srcs = self.origins(fi, arg, env)
             for (r, rel) in srcs:
+                if rel.startswith('key:'):
+                    continue
                 root = r + chain
                 rel_c = _combine(rel, rel2)
                 k = (kind, root, rel_c, id(site),
@@ -610,11 +691,23 @@ def _split_root(root):
     return root[:i], root[i:]
 
 
+def _child(rel):
+    if rel == 'fresh':
+        return 'fresh'
+    if rel == 'parent':
+        return 'sibling'
+    return 'under'
+
+
 def _combine(a, b):
+    """relation of (x rel-a root) seen through (y rel-b x)"""
     if a == 'same':
         return b
     if b == 'same':
         return a
+    if 'fresh' in (a, b):
+        # anything at or below a freshly created directory is fresh
+        return 'fresh'
     if 'under' in (a, b):
         return 'under'
     return a
